@@ -136,6 +136,7 @@ def check_cell(ctx, key, src, res, static, rtk, stats):
 
 def run(ctx, binary):
     tab, un = model_tables()
+    ctx.c02_tables = (tab, un)
     base = ctx.mktemp()
     jobs = []
     for variant in (0, 1):
